@@ -16,11 +16,19 @@ from hypothesis import strategies as st
 def build_simple(g):
     import networkx
     from cnfgen.graphs import Graph
-    if g.get('as', 'cnfgen') == 'networkx':
+    kind = g.get('as', 'cnfgen')
+    if kind == 'networkx':
         G = networkx.Graph()
         G.add_nodes_from(range(1, g['n'] + 1))
         G.add_edges_from((u, v) for u, v in g['edges'])
         G.name = 'nx simple graph'
+        return G
+    if kind == 'networkx-rev':
+        # same graph, nodes inserted in decreasing order and every edge given as (larger, smaller)
+        G = networkx.Graph()
+        G.add_nodes_from(range(g['n'], 0, -1))
+        G.add_edges_from((max(u, v), min(u, v)) for u, v in reversed(g['edges']))
+        G.name = 'nx simple graph (reversed insertion)'
         return G
     G = Graph(g['n'])
     for u, v in g['edges']:
@@ -32,12 +40,26 @@ def build_bipartite(g):
     import networkx
     from cnfgen.graphs import BipartiteGraph
     L, R = g['L'], g['R']
-    if g.get('as', 'cnfgen') == 'networkx':
+    kind = g.get('as', 'cnfgen')
+    if kind == 'networkx':
         G = networkx.Graph()
         G.add_nodes_from(range(1, L + 1), bipartite=0)
         G.add_nodes_from(range(L + 1, L + R + 1), bipartite=1)
         G.add_edges_from((u, L + v) for u, v in g['edges'])
         G.name = 'nx bipartite graph'
+        return G
+    if kind == 'networkx-rl':
+        # same graph: the two sides are inserted interleaved starting with a right vertex (the order
+        # inside each side is kept, which is what fixes the numbering), string labels, and every
+        # edge is given as (right, left): networkx then reports edges starting from the right side
+        G = networkx.Graph()
+        for i in range(1, max(L, R) + 1):
+            if i <= R:
+                G.add_node('r{:03d}'.format(i), bipartite=1)
+            if i <= L:
+                G.add_node('l{:03d}'.format(i), bipartite=0)
+        G.add_edges_from(('r{:03d}'.format(v), 'l{:03d}'.format(u)) for u, v in reversed(g['edges']))
+        G.name = 'nx bipartite graph (right side first)'
         return G
     B = BipartiteGraph(L, R)
     for u, v in g['edges']:
@@ -53,6 +75,12 @@ def build_digraph(g):
         G.add_nodes_from(range(1, g['n'] + 1))
         G.add_edges_from((u, v) for u, v in g['edges'])
         G.name = 'nx digraph'
+        return G
+    if g.get('as') == 'networkx-rev':
+        G = networkx.DiGraph()
+        G.add_nodes_from(range(g['n'], 0, -1))
+        G.add_edges_from((u, v) for u, v in reversed(g['edges']))
+        G.name = 'nx digraph (reversed insertion)'
         return G
     D = DirectedGraph(g['n'])
     for u, v in g['edges']:
@@ -113,14 +141,14 @@ def _edge_subset(draw, P, max_edges=None):
 
 
 @st.composite
-def simple_graphs(draw, nmin=0, nmax=7, max_edges=None, kinds=('cnfgen', 'networkx')):
+def simple_graphs(draw, nmin=0, nmax=7, max_edges=None, kinds=('cnfgen', 'networkx', 'networkx-rev')):
     n = draw(st.integers(nmin, nmax))
     edges = _edge_subset(draw, all_pairs(n), max_edges)
     return {'n': n, 'edges': edges, 'as': draw(st.sampled_from(list(kinds)))}
 
 
 @st.composite
-def bipartite_graphs(draw, Lmin=0, Lmax=4, Rmin=0, Rmax=5, max_edges=None, kinds=('cnfgen', 'networkx')):
+def bipartite_graphs(draw, Lmin=0, Lmax=4, Rmin=0, Rmax=5, max_edges=None, kinds=('cnfgen', 'networkx', 'networkx-rl')):
     L = draw(st.integers(Lmin, Lmax))
     R = draw(st.integers(Rmin, Rmax))
     P = [(u, v) for u in range(1, L + 1) for v in range(1, R + 1)]
@@ -129,7 +157,7 @@ def bipartite_graphs(draw, Lmin=0, Lmax=4, Rmin=0, Rmax=5, max_edges=None, kinds
 
 
 @st.composite
-def dags(draw, nmin=1, nmax=7, max_edges=None, kinds=('cnfgen', 'networkx')):
+def dags(draw, nmin=1, nmax=7, max_edges=None, kinds=('cnfgen', 'networkx', 'networkx-rev')):
     return draw(simple_graphs(nmin=nmin, nmax=nmax, max_edges=max_edges, kinds=kinds))
 
 
